@@ -431,7 +431,7 @@ class SGen:
         r = self.r
         v = [x for x in LOOPVARS if x not in env][0]
         lo, hi = r.choice([(1, 4), (2, 5), (1, 3), (0, 3), (3, 2), (2, 2), (-1, 1)])
-        st = r.choice([1, 1, None, None, 2, -1, -2])
+        st = r.choice([1, None, None, 2, -1, -1, -2])
         if st is not None and st < 0:
             bounds = (("lit", hi), ("lit", lo))
         else:
